@@ -351,4 +351,76 @@ theorem char_sim {caps : TermPen.Caps} {t0 t : GridTerm} {s0 s : XScreen} (h : S
       · show some (s.row, s.col) = some (t.line, t.col)
         rw [hrow, hcol]
 
+/-! ### A sequence of requests -/
+
+/-- What the simulation asks of one request, given the grid terminal `t` it arrives at (`moved`: a goto has been seen,
+    so the cursors agree): gotos at non-negative positions, pens the driver can say, erases of at least one cell that
+    are not `TICKIT_NO` and not under reverse video (then the driver prints spaces: not covered), print requests
+    carrying the UTF-8 form of one printable one-column code point with the cursor not in the pending-wrap state. -/
+def ReqOK (caps : TermPen.Caps) (moved : Bool) (t : GridTerm) : Req → Prop
+  | .goto l c => 0 ≤ l ∧ 0 ≤ c
+  | .setpen p => PenEncodable caps p
+  | .erasech n m => moved = true ∧ 1 ≤ n ∧ m ≠ .no ∧ Pen.getBool t.pen.reverse = false
+  | .print bs start len =>
+    moved = true ∧ t.col < t.cols ∧
+    ∃ cp, Printable cp ∧ Utf8.wcwidth cp = 1 ∧ bs = stdUtf8 cp ∧ start = 0 ∧ len = (stdUtf8 cp).length
+
+def movedAfter (moved : Bool) : Req → Bool
+  | .goto _ _ => true
+  | _ => moved
+
+/-- `ReqOK` of every request of a sequence, each at the grid terminal the requests before it lead to (on a screen of
+    `L` lines). -/
+def RunOK (caps : TermPen.Caps) (L : Int) : Bool → GridTerm → List Req → Prop
+  | _, _, [] => True
+  | moved, t, r :: rs => ReqOK caps moved t r ∧ RunOK caps L (movedAfter moved r) (t.stepL L r) rs
+
+/-- One request: the two terminals stay in step, `tt->pen` is what `reqPen` says, the cursors agree once a goto has been
+    seen. -/
+theorem req_sim {caps : TermPen.Caps} {t0 t : GridTerm} {s0 s : XScreen} (h : Sim caps t0 s0 t s) (moved : Bool)
+    (hcur : moved = true → Cur t s) (r : Req) (hr : ReqOK caps moved t r) :
+    Sim caps t0 s0 (t.stepL s.lines r) (s.interp (reqCalls caps t.pen r).flatten) ∧
+    (movedAfter moved r = true → Cur (t.stepL s.lines r) (s.interp (reqCalls caps t.pen r).flatten)) ∧
+    (s.interp (reqCalls caps t.pen r).flatten).lines = s.lines ∧
+    (t.stepL s.lines r).pen = reqPen t.pen r := by
+  cases r with
+  | goto l c =>
+    obtain ⟨h1, h2, h3⟩ := goto_sim h l c hr.1 hr.2
+    exact ⟨h1, fun _ => h2, h3, rfl⟩
+  | setpen p =>
+    obtain ⟨h1, h2, h3⟩ := setpen_sim h p hr
+    exact ⟨h1, fun hm => h2 (hcur hm), h3, rfl⟩
+  | erasech n m =>
+    obtain ⟨hm, hn, hno, hrv⟩ := hr
+    obtain ⟨h1, h2, h3⟩ := erase_sim h (hcur hm) n hn m hno hrv
+    exact ⟨h1, fun _ => h2, h3, (GT.erasech_fields t n m hn).2.2.1⟩
+  | print bs start len =>
+    obtain ⟨hm, hnp, cp, hp, hw, rfl, rfl, rfl⟩ := hr
+    obtain ⟨h1, h2, h3⟩ := char_sim h (hcur hm) hnp cp hp hw
+    refine ⟨h1, fun _ => h2, h3, ?_⟩
+    have hl := stdUtf8_length_ne cp
+    have hb : GridTerm.reqBytes t.viaWriteStr (stdUtf8 cp) 0 (stdUtf8 cp).length = stdUtf8 cp := by
+      simp [GridTerm.reqBytes, hl]
+    obtain ⟨p1, p2, p3⟩ := hp
+    have hn : ¬ t.col + 1 > t.cols := by omega
+    simp only [GridTerm.stepL, hb, GridTerm.printBytesL, termDecode_stdUtf8 cp (by omega) (by omega), hw,
+      GridTerm.putChsL, List.foldl_cons, List.foldl_nil, GridTerm.putChL, GridTerm.putGlyphL, reqPen]
+    simp [hn, GridTerm.putGlyphRaw]
+
+/-- **reqs_sim**: a sequence of requests the simulation covers (`RunOK`), read by the VT screen as the bytes the xterm
+    driver writes for them one after the other (`reqsCalls`: `tt->pen` threaded through), leaves the VT screen in step
+    with the grid terminal that executed the requests on a screen of as many lines. -/
+theorem reqs_sim {caps : TermPen.Caps} {t0 : GridTerm} {s0 : XScreen} :
+    ∀ (reqs : List Req) (t : GridTerm) (s : XScreen) (moved : Bool), Sim caps t0 s0 t s → (moved = true → Cur t s) →
+      RunOK caps s.lines moved t reqs →
+      Sim caps t0 s0 (t.runL s.lines reqs) (s.interp (reqsCalls caps t.pen reqs).flatten)
+  | [], t, s, _, h, _, _ => by simpa [GridTerm.runL, reqsCalls] using h
+  | r :: rs, t, s, moved, h, hcur, hrun => by
+    obtain ⟨hr, hrest⟩ := hrun
+    obtain ⟨h1, h2, h3, h4⟩ := req_sim h moved hcur r hr
+    have := reqs_sim rs (t.stepL s.lines r) (s.interp (reqCalls caps t.pen r).flatten) (movedAfter moved r) h1 h2
+      (by rw [h3]; exact hrest)
+    rw [h3, h4] at this
+    simpa only [GridTerm.runL, reqsCalls, List.flatten_append, XScreen.interp_append] using this
+
 end Tickit.RBFlushX
